@@ -26,7 +26,7 @@ CHECKS = {
               "(valid segment streams from 1-2 senders mutated by drop/dup/swap/re-address/FIR,FIN flips/sequence skips/interleaving/link-status and empty frames); "
               "+ (session boundaries: one Reader, reset() between two connections, the first of which ends k segments into a fragment and the second of which continues with the remaining segments: nothing of the cut fragment may be delivered); non-trivial = oracle evaluated; distinct = (length class mod 249, length vs rx buffer, chunking) and (role, set of mutation classes, rx size, chunking) tuples"),
         runs=[dict(check="c08", timeout_s=900)],
-        required=["writer_ok", "roundtrip_ok", "oversize_dropped_next_ok", "delivered_explained", "clean_runs_delivered", "tail_after_damage_ok", "writer_resets", "session_boundary_ok"],
+        required=["D_fragment_up_to_rx_answered", "D_fragment_beyond_rx_dropped", "writer_ok", "roundtrip_ok", "oversize_dropped_next_ok", "delivered_explained", "clean_runs_delivered", "tail_after_damage_ok", "writer_resets", "session_boundary_ok"],
         thorough_scale=40.0,
         exhaustive_note="every fragment length 1..=2299 (lengths above 2048 exceed every rx buffer and must be dropped); all 64 starting transport sequence values via the running writer sequence",
         assumptions=HARNESS_TRUST,
@@ -37,7 +37,7 @@ CHECKS = {
               "on the real link::layer::Layer, each followed by a link-status probe; part A2: random FCB sequences; part B (when built): application fragments from foreign master/broadcast in each session state. "
               "distinct = (role, function class, FCV, destination class, source class, self-address, secondary state, payload) tuples"),
         runs=[dict(check="c07", scale=8, timeout_s=900)],
-        required=["mixed_source_fragment_ignored", "empty_frame_after_rejected_frame_ignored", "link_status_answered", "confirmed_delivered", "confirmed_duplicate_suppressed"],
+        required=["master_self_address_ignored", "master_own_address_served", "mixed_source_fragment_ignored", "empty_frame_after_rejected_frame_ignored", "link_status_answered", "confirmed_delivered", "confirmed_duplicate_suppressed"],
         thorough_scale=20.0,
         exhaustive_note="link table: all 256 control bytes x 7 dest x 7 src x roles x self-address x 3 secondary states x 2 payloads enumerated completely on every run",
         assumptions=HARNESS_TRUST,
@@ -209,7 +209,7 @@ CHECKS = {
         rule=("real outstation database -> response / unsolicited writers -> relay -> real master parser, extraction and handler; points of all eight types at indices 0 .. 65535 with every configurable static and event variation; values at and around every representation boundary (i16/i32/f32 limits +-1, NaN, infinities, -0.0, random bit patterns, counters around 2^16 and 2^32), every flag octet, 48-bit times along a line with gaps 0, 1, 65534..65536, 70000, negative, and sync flips; "
               "class 0, static reads by type with explicit variation (all objects, 8- and 16-bit ranges), event reads by class and by type with explicit variation (all objects, 8- and 16-bit limited counts) and unsolicited delivery, each read attributed to its records; each handler record is judged by a hand-written 'what this variation can carry' function of the database value"),
         runs=[dict(check="c10", scale=4, timeout_s=900)],
-        required=["event_values_ok", "static_values_ok", "relative_time_reconstructed_ok", "ok_g1v1", "ok_g1v2", "ok_g2v3", "ok_g4v3", "ok_g20v6", "ok_g30v2", "ok_g30v5", "ok_g32v4", "ok_g32v7", "ok_g42v8", "ok_g111v1", "explicit_event_variation_ok", "explicit_static_variation_ok", "update_flags_used"],
+        required=["measurements_written_without_a_time", "event_values_ok", "static_values_ok", "relative_time_reconstructed_ok", "ok_g1v1", "ok_g1v2", "ok_g2v3", "ok_g4v3", "ok_g20v6", "ok_g30v2", "ok_g30v5", "ok_g32v4", "ok_g32v7", "ok_g42v8", "ok_g111v1", "explicit_event_variation_ok", "explicit_static_variation_ok", "update_flags_used"],
         thorough_scale=12.0,
         abnormal_exit_is_violation=True,
         assumptions=HARNESS_TRUST,
